@@ -170,7 +170,7 @@ pub fn prop(id: &str) -> Option<Prop> {
         "C15" => Prop {
             id: "C15",
             views: v(&[View::Scale, View::Crash, View::Abort, View::LibPanic]),
-            rule: "proptest-generated size/shape parameters (ring, ring+chords, clique, ring with self-adoptions; N log-uniform up to 20k quick / 300k thorough, clique up to 120 / 400); graph built in O(N+E), orphaned by one final drop on a 128 KiB stack; oracle: all N destroyed, tables scanned <= 2N+2, worklist pops <= 2(N+E)+2 summed over every trace started by that drop; non-trivial = N >= 1000 (clique: n >= 40); distinct = distinct parameter hash",
+            rule: "proptest-generated size/shape parameters (ring, ring+chords, clique, ring with self-adoptions; N log-uniform up to 20k quick / 300k thorough, clique up to 120 / 400); graph built in O(N+E), orphaned by one final drop on a 128 KiB stack; oracle: all N destroyed, tables scanned <= 8N+8, worklist pops <= 8(N+E)+8 summed over every trace started by that drop; non-trivial = N >= 1000 (clique: n >= 40); distinct = distinct parameter hash",
             quick_cases: 1_600,
             thorough_cases: 4_000,
             layouts_quick: 1,
